@@ -11,7 +11,7 @@ FINISH = dict(level="model_checking",
                    "hashing with the own candidate must fail); V: the ENABLE_THREADING build under 2..16 threads x up to "
                    "10^6 get/put, repeated process starts racing on the first hash, disjoint trees per thread, and a "
                    "ThreadSanitizer twin of the counter run; each run validated by TLC against the atomic outcome")
-ASF = ["nonatomic", "plain_store", "hash_own_candidate", "put_check_then_act", "publish_sentinel"]
+ASF = ["nonatomic", "plain_store", "hash_own_candidate", "put_check_then_act", "publish_sentinel", "container_put_plain"]
 SEEDDEF = "-DOVERRIDE_GET_RANDOM_SEED='return vh_seed_candidate()'"
 
 
@@ -27,6 +27,7 @@ def run(ck):
                        "each thread's seed candidate is made distinct through the upstream OVERRIDE_GET_RANDOM_SEED compile-time hook"]
     ck.mc("MCThreads", "C18_mc.cfg", workers=8, timeout=1200)
     ck.mc("MCThreads", "C18_mc_last.cfg", workers=8, timeout=1200)      # the last references released concurrently
+    ck.mc("MCThreads", "C18_mc_via.cfg", workers=8, timeout=1200)       # references released by containers that held them
     for m in ASF:
         ck.mc_must_fail("MCThreads", "C18_asfound_%s.cfg" % m, workers=4, timeout=600)
     exe = vlib.build("thr", ["vhthr.c", "vhrt.c"], "vhthr", repo_cflags=SEEDDEF, objtag="-c18")
